@@ -18,7 +18,16 @@ for mid in sorted(d for d in os.listdir(SEED) if os.path.isdir(os.path.join(SEED
     meta['detected_by'] = det
     json.dump(meta, open(mp, 'w'), indent=1)
     manifests = r.get('demo_mutant') not in (0, None)
+    if r.get('error'):
+        rows.append(f"| {mid} | {meta['change'][:150]} | NOT RUN: {r['error'][:80]} |")
+        continue
     verdict = ', '.join(det) if det else ('no longer manifests on the repaired tree (demo passes)' if not manifests else ('inconclusive: ' + ', '.join(inconc) if inconc else 'not detected'))
     rows.append(f"| {mid} | {meta['change'][:150]} | {verdict} |")
-print('| id | change | caught by (quick tier, exit 1 + VIOLATION) |\n|---|---|---|')
-print('\n'.join(rows))
+table = '| id | change | caught by (quick tier, exit 1 + VIOLATION) |\n|---|---|---|\n' + '\n'.join(rows)
+print(table)
+dp = os.path.join(ROOT, 'DESIGN.md')
+d = open(dp).read()
+b, e = '<!-- SEEDED-TABLE-BEGIN -->', '<!-- SEEDED-TABLE-END -->'
+if b in d and e in d:
+    d = d[:d.index(b) + len(b)] + '\n' + table + '\n' + d[d.index(e):]
+    open(dp, 'w').write(d)
